@@ -31,7 +31,7 @@ CHECKS = {
              "the schema interpreter of the reference model: decode(encode(v)) == v[transient := default], the emitted bytes "
              "are what the interpreter prescribes for that declaration, and the interpreter decodes them to the same value; "
              "distinct = distinct (declaration, encoding) pairs",
-        floors={"any": {"deep_nesting_ok": 2, "programs": 200, "disagreements_checked": 5000}},
+        floors={"any": {"deep_recursive_values_ok": 6, "names:made_optional_in_both_incarnations:across_the_last_step": 1, "deep_nesting_ok": 2, "programs": 200, "disagreements_checked": 5000}},
         assumptions=["the reference model (refmodel crate) is trusted; it is cross-checked against the evolution table in C03 and pinned by the Scala golden file in C04"],
     ),
     "C03": dict(
@@ -131,7 +131,7 @@ CHECKS = {
         quick=NATIVE + [("miri", 0.008, {"shards": 16, "max_nodes": 2})],
         thorough=NATIVE + [("asan", 1.0), ("memcheck", 0.2), ("miri", 0.005, {"shards": 16, "max_nodes": 3})],
         rule="graphs enumerated exhaustively up to the node bound (all ordered edge lists of length 0..2 per node, all nodes reachable), random beyond; non-trivial = some node is offered more than once (sharing, cycle or self-loop); distinct by adjacency structure",
-        floors={"any": {"graphs_rebuilt_isomorphic": 500, "unknown_object_numbers_rejected": 500, "embedded_graph_rebuilt": 500, "embedded_graph_bytes_ok": 500}},
+        floors={"any": {"same_address_objects_of_different_types_kept_apart": 1, "graphs_rebuilt_isomorphic": 500, "unknown_object_numbers_rejected": 500, "embedded_graph_rebuilt": 500, "embedded_graph_bytes_ok": 500}},
     ),
     "C11": dict(
         claim="Thorough tier: exhaustive — all 2^32 bit patterns, each as u32 and as i32, are written to Vec<u8>, BytesMut and SizeCalculator, compared with the reference LEB128 / zig-zag formula, checked for minimal length and continuation bits, and read back through SliceInput, OwnedInput and DeserializationContext (release build, 16 shards). Quick tier: every value within 4096 of each width boundary plus a 2^20-point random sample, debug and release. Every value is additionally written and read as chunk-0 / chunk-1 / chunk-2 field of an evolved record (chunk buffers on the way out, input regions with non-zero start on the way back).",
@@ -141,7 +141,7 @@ CHECKS = {
         quick=NATIVE,
         thorough=[("dbg", 1.0), ("rel", 1.0, {"exhaustive": "1"})],
         rule="every (kind, bit pattern) pair is one case covering bytes, length, continuation bits and the 3x3 sink/source matrix; all cases are non-trivial; distinct by (kind, value); the thorough tier enumerates the whole space (exhaustive: true)",
-        floors={"any": {"values_checked": 100000, "values_checked_inside_regions": 100000}},
+        floors={"any": {"growing_buffers_ok": 10, "values_checked": 100000, "values_checked_inside_regions": 100000}},
         coverage_extra={"exhaustive": lambda counters, tier: counters.get("exhaustive_bit_patterns", 0) == 2**32},
     ),
     "C12": dict(
@@ -178,7 +178,7 @@ CHECKS = {
         level="exploration",
         quick=NATIVE, thorough=NATIVE + [("fresh", 1.0, {"only": "fresh"})],
         rule="cases: (type, value) across 5 sinks + size calculator; (buffer, read sequence) across 3 inputs; distinct by (type, bytes) / (buffer, ops)",
-        floors={"any": {"totals_beyond_2_pow_32_exact": 7, "all_sinks_agree_and_size_exact": 10000, "input_sequences_agree": 10000, "big_values_ok": 50}},
+        floors={"any": {"entry_points_with_exactly_one_pass": 5, "totals_beyond_2_pow_32_exact": 7, "all_sinks_agree_and_size_exact": 10000, "input_sequences_agree": 10000, "big_values_ok": 50}},
     ),
     "C16": dict(
         claim="Fault enumeration on compressed frames: contents (zero, random, periodic, text, mixed) x sizes 0 .. 1 MiB (16 MiB thorough) x levels 0-9 x both sinks x all three sources with trailing data: frame == varint(len d) ++ varint(len z) ++ z with z inflating to d (checked with an independent inflate), following bytes intact; every truncation of frames <= 4 KiB is an error; every single-bit flip of small frames, random flips of large ones and header rewrites give Ok or Err, no panic, and no single allocation request above max(64 KiB, 2 x bytes actually produced) (allocation monitor). Frames are also written by a user codec through SerializationContext (straight to the sink, into a chunk buffer, through a size-calculating context) and read back from inside input regions; every bit of the first four bytes of each deflate stream is flipped.",
